@@ -76,7 +76,7 @@ func methodOf(i int) string {
 	return "POST"
 }
 
-var c07Extras = []string{"/zz", "/a/zz", "/{zz}", "/a/{zz}", "/*{zz}", "/a/b/zz", "zz.b/", "/ab/zz/{q}"}
+var c07Extras = []string{"/s/a", "/s/c", "/zz", "/a/zz", "/{zz}", "/a/{zz}", "/*{zz}", "/a/b/zz", "zz.b/", "/ab/zz/{q}"}
 
 type pairState struct {
 	set  RouteSet
@@ -206,6 +206,26 @@ func SetupC07Pair() any {
 		for i := n - 1; i >= 0; i-- {
 			mustHandle(b, methodOf(i), set.Routes[i].Pattern)
 		}
+	case 9: // every unregistered prefix of a route that ends before a '/' is inserted and deleted again
+		insertAll()
+		for i, rt := range set.Routes {
+			m := methodOf(i)
+			for cut := 1; cut < len(rt.Pattern); cut++ {
+				if rt.Pattern[cut] != '/' {
+					continue
+				}
+				pre := rt.Pattern[:cut]
+				if pre == "" || b.r.Has(m, pre) {
+					continue
+				}
+				if _, err := b.r.Handle(m, pre, b.handler()); err != nil {
+					continue // not a valid pattern on its own, or conflicting
+				}
+				if _, err := b.r.Delete(m, pre); err != nil {
+					panic(err)
+				}
+			}
+		}
 	default:
 		panic("unknown history")
 	}
@@ -215,7 +235,7 @@ func SetupC07Pair() any {
 	return st
 }
 
-const nC07Hist = 9
+const nC07Hist = 10
 
 var c07Methods = []string{"GET", "POST", "DELETE", "OPTIONS"}
 
